@@ -2,6 +2,7 @@ package main
 
 import (
 	"regexp"
+	"bufio"
 	"bytes"
 	"errors"
 	"fmt"
@@ -334,6 +335,40 @@ func init() {
 						fmt.Fprintf(c.w, "after %d %s %s\n", upid, bmx.HexField([]byte(probe)), safeSanitize(upol, []byte(probe)))
 						fmt.Fprintf(c.w, "after %d %s %s\n", pid3, bmx.HexField([]byte(probe)), safeSanitize(pol3, []byte(probe)))
 					}
+				}
+			}
+		}
+		// long tokens through the streaming entry points, from sources that are not in-memory readers: a
+		// text run, a comment, an attribute value and a raw-text body of more than one and more than four
+		// MiB come out whole, whatever the reader looks like
+		{
+			ops := []*bmx.Op{{Kind: "AE", Names: []string{"p", "b", "pre"}}, {Kind: "AA", Names: []string{"title"}, Scope: "G"}, {Kind: "AC"}}
+			pid, pol := c.policy(ops)
+			sizes := []int{1<<20 + 17}
+			if c.n > 2000 {
+				sizes = append(sizes, 4<<20+3)
+			}
+			for _, n := range sizes {
+				for di, doc := range []string{"<p>" + strings.Repeat("lorem ipsum ", n/12) + "</p>", "<pre title=\"" + strings.Repeat("a", n) + "\">t</pre>",
+					"<p>x</p><!--" + strings.Repeat("c ", n/2) + "--><b>y</b>", strings.Repeat("plain text, no markup at all. ", n/30)} {
+					ok := true
+					for mode, mk := range []func() io.Reader{
+						func() io.Reader { return &chunkReader{data: []byte(doc), mode: 0, r: c.r} },
+						func() io.Reader { return bufio.NewReaderSize(strings.NewReader(doc), 4096) },
+						func() io.Reader { return io.MultiReader(strings.NewReader(doc[:len(doc)/2]), strings.NewReader(doc[len(doc)/2:])) },
+						func() io.Reader { return struct{ io.Reader }{strings.NewReader(doc)} },
+					} {
+						if pol.SanitizeReader(mk()).String() != doc {
+							ok = false
+							c.stat(fmt.Sprintf("bigstream_reader_doc%d_mode%d", di, mode), "differs")
+						}
+						var w bytes.Buffer
+						if err := pol.SanitizeReaderToWriter(mk(), &w); err != nil || w.String() != doc {
+							ok = false
+							c.stat(fmt.Sprintf("bigstream_writer_doc%d_mode%d", di, mode), "differs")
+						}
+					}
+					fmt.Fprintf(c.w, "big %d %d %s\n", pid, len(doc), b01(ok))
 				}
 			}
 		}
@@ -983,6 +1018,7 @@ func init() {
 		splitFam(c)
 		toggleFam(c)
 		directedStaged(c)
+		directedOverlap(c)
 		independence(c)
 	}
 	concFam := families["conc"]
@@ -995,6 +1031,12 @@ func init() {
 	// directed material for individual properties
 	families["directed"] = func(c *ctx) {
 		directedStaged(c)
+		switch c.prop {
+		case "C02", "C10", "C17", "C13":
+			directedOverlap(c)
+		case "C01", "C05", "C06":
+			directedComments(c)
+		}
 		switch c.prop {
 		case "C01":
 			directedC01(c)
